@@ -68,7 +68,7 @@ def make_options(cfg) -> SerializerOptions:
     mn, mp, md = cfg["preset"]
     return SerializerOptions(
         flow=make_flow(cfg),
-        frame_size=cfg["frame_size"],
+        frame_size=cfg.get("options_frame_size", cfg["frame_size"]),     # (an explicit flow object carries its own frame size)
         logical_type=cfg["ltype"],
         params=StreamParameters(generalized_statements=cfg["gen"], rdf_star=cfg["star"], delimited=cfg["delimited"],
                                 namespace_declarations=cfg["nsdecl"], stream_name=cfg.get("name", ""),
@@ -211,6 +211,11 @@ def rdflib_statement(st):
     from pyjelly.integrations.rdflib.parse import Quad, Triple  # noqa: PLC0415
 
     tt = [terms.to_rdflib(t) for t in st]
+    if len(tt) == 4 and st[3] == ("dg",):
+        # a default-graph identifier as user code builds it (or as it comes out of pickle / deepcopy): EQUAL to rdflib's constant, not the same object
+        import rdflib  # noqa: PLC0415
+
+        tt[3] = rdflib.URIRef(str(tt[3]))
     return Triple(*tt) if len(tt) == 3 else Quad(*tt)
 
 
